@@ -161,3 +161,52 @@ fn exp_last_type(a: &LexResult) -> String {
         .nth(n.saturating_sub(2))
         .map_or("none".into(), |(_, t)| format!("{:?}", t.token_type()))
 }
+
+/// Shadow of the carry-over counters: the macro nesting level and the depth of the
+/// pending-statement stack that the hook reports at end of input must be what the *emitted*
+/// keyword tokens imply (`%macro` +1 / `%mend` -1 saturating; the stack starts at one frame, `%do`
+/// and `%macro` push one, `%end` and `%mend` pop one but never the last). A counter that drifts
+/// from its tokens is state that leaks past statement boundaries, and it also makes the lexer's
+/// own notion of a closed prefix (which C15 relies on for arbitrary strings) wrong.
+pub fn check_state_shadow(v: &View, ex: &Exec) -> Findings {
+    let mut f = Findings::new();
+    let Some(eoi) = &ex.report.end_of_input else { return f };
+    let mut nesting: u32 = 0;
+    let mut frames: usize = 1;
+    for t in &v.toks {
+        match t.ty {
+            TokenType::KwmMacro => {
+                nesting += 1;
+                frames += 1;
+            }
+            TokenType::KwmDo => frames += 1,
+            TokenType::KwmMend => {
+                nesting = nesting.saturating_sub(1);
+                if frames > 1 {
+                    frames -= 1;
+                }
+            }
+            TokenType::KwmEnd => {
+                if frames > 1 {
+                    frames -= 1;
+                }
+            }
+            _ => {}
+        }
+    }
+    if eoi.macro_nesting_level != nesting {
+        f.push(Finding::new(
+            "C15.state-shadow",
+            "macro-nesting",
+            format!("macro nesting level at end of input is {} but the emitted %macro/%mend tokens imply {}", eoi.macro_nesting_level, nesting),
+        ));
+    }
+    if eoi.pending_stat_stack.len() != frames {
+        f.push(Finding::new(
+            "C15.state-shadow",
+            "pending-frames",
+            format!("pending-statement stack has {} frame(s) at end of input but the emitted %do/%macro/%end/%mend tokens imply {}", eoi.pending_stat_stack.len(), frames),
+        ));
+    }
+    f
+}
